@@ -18,6 +18,11 @@ ops
   `ev sumbykey|countvalues|countkeys|countvalidkeys E`   answer as `ev id`, items sorted by key token
   `fv <0|1> [k …] [v …] <probe>`    answer `some <v>` | `none`      (CollectionFeature.FindValue; 1 = Sort()ed)
   `fvs <0|1> [k …] [v …] <probe>`   answer `[v …]`                  (FindValues)
+  world histories (state = the collection feature the world holds under one fixed ID, reset by `case`):
+  `wnew` / `woverlay`                      answer `ok`   (fresh BasicMutableWorld / MutableOverlayWorld on top of it)
+  `wadd <0|1> [k …] [v …]`                 answer `<0|1> [k …] [v …]` = IsSortedByKey, keys, values read back from the
+                                           world after AddFeature of a feature with these keys (1 = after Sort()) | `err`
+  `wfv <probe>` / `wfvs <probe>`           FindValue / FindValues on the feature read back from the world
 
 Verdict: the implementation's answer is compared with the list reference (`Spec.Collections`) — a mismatch
 is `propfail <function>`; `count_agrees` fails when a reported count differs from the number of items
@@ -291,14 +296,56 @@ def parseVals (s : String) : Option (List Val) := do
   let ws ← parseBracket s
   ws.mapM parseVal
 
-def step (_ : Unit) (op impl : String) : Unit × Verdict :=
+def parseCF (flag rest : String) : Option CF :=
+  match rest.splitOn "[" with
+  | [_, ks, vs] =>
+    match parseVals ("[" ++ ks), parseVals ("[" ++ vs) with
+    | some ks, some vs => some { keys := ks.toArray, vals := vs.toArray, sorted := flag == "1" }
+    | _, _ => none
+  | _ => none
+
+def renderCF (c : CF) : String :=
+  s!"{if c.sorted then 1 else 0} {renderList (c.keys.toList.map renderVal)} {renderList (c.vals.toList.map renderVal)}"
+
+def optVal (o : Option Val) : String :=
+  match o with
+  | some v => "some " ++ renderVal v
+  | none => "none"
+
+def step (st : Option CF) (op impl : String) : Option CF × Verdict :=
   match words op with
+  | ["wnew"] => (none, if impl == "ok" then .ok else .diff "ok")
+  | ["woverlay"] => (st, if impl == "ok" then .ok else .diff "ok")
+  | "wadd" :: flag :: _ =>
+    match parseCF flag op with
+    | none => (st, .bad)
+    | some f =>
+      let m := worldAdd st f
+      let modelAns := match m with
+        | some c => renderCF c
+        | none => "err"
+      -- resynchronise on what the world reports
+      let st' := match impl.splitOn " " with
+        | fl :: _ => (parseCF fl impl).orElse fun _ => m
+        | [] => m
+      (st', if impl == modelAns then .ok else .diff modelAns)
+  | ["wfv", probe] =>
+    match st, parseVal probe with
+    | some c, some p =>
+      (st, judge impl (optVal (scanFirst c.keys c.vals p)) (optVal (c.findValue p)) "find_value")
+    | _, _ => (st, .bad)
+  | ["wfvs", probe] =>
+    match st, parseVal probe with
+    | some c, some p =>
+      (st, judge impl (renderList ((scanAll c.keys c.vals p).map renderVal))
+        (renderList ((c.findValues p).map renderVal)) "find_values")
+    | _, _ => (st, .bad)
   | "ev" :: root :: toks =>
     match parseCo (toks.length + 1) toks with
-    | some (c, []) => ((), evalRoot root c impl)
-    | _ => ((), .bad)
+    | some (c, []) => (st, evalRoot root c impl)
+    | _ => (st, .bad)
   | kind :: sorted :: _ =>
-    if kind != "fv" && kind != "fvs" then ((), .bad) else
+    if kind != "fv" && kind != "fvs" then (st, .bad) else
     match op.splitOn "[" with
     | [_, ks, rest] =>
       match rest.splitOn "]" with
@@ -307,20 +354,17 @@ def step (_ : Unit) (op impl : String) : Unit × Verdict :=
         | some ks, some vs, some probe =>
           let sorted := sorted == "1"
           if kind == "fv" then
-            let r (o : Option Val) := match o with
-              | some v => "some " ++ renderVal v
-              | none => "none"
-            ((), judge impl (r (scanFirst ks.toArray vs.toArray probe))
-              (r (findValue sorted ks.toArray vs.toArray probe)) "find_value")
+            (st, judge impl (optVal (scanFirst ks.toArray vs.toArray probe))
+              (optVal (findValue sorted ks.toArray vs.toArray probe)) "find_value")
           else
-            ((), judge impl (renderList ((scanAll ks.toArray vs.toArray probe).map renderVal))
+            (st, judge impl (renderList ((scanAll ks.toArray vs.toArray probe).map renderVal))
               (renderList ((findValues sorted ks.toArray vs.toArray probe).map renderVal)) "find_values")
-        | _, _, _ => ((), .bad)
-      | _ => ((), .bad)
-    | _ => ((), .bad)
-  | _ => ((), .bad)
+        | _, _, _ => (st, .bad)
+      | _ => (st, .bad)
+    | _ => (st, .bad)
+  | _ => (st, .bad)
 
-def family : Family := { σ := Unit, init := (), step := step }
+def family : Family := { σ := Option CF, init := none, step := step }
 
 end B6.Driver.C24
 
